@@ -253,6 +253,14 @@ def aligned_data_patch(case, rng):
     if not free:
         return case
     i = rng.choice(free)
+    if rng.random() < 0.4:
+        # an alignment request directly in front of a label (an aligned loop head): the empty aligned block the
+        # assembler starts there is merged into the label's block
+        off = rng.choice(emodify.block_layout(case["text"][i])[:-1] or [0])
+        case["edits"].append({"op": "insert", "block": i, "off": off,
+                              "asm": rng.choice(["testl %%eax, %%eax\n.balign %d\n.Lhead:\ndecl %%eax\njne .Lhead", "nop\n.balign %d\n.Lhead:\nhead2:\nnop\njne .Lhead",
+                                                 ".balign %d\n.Lhead:\nnop\njne .Lhead"]) % rng.choice([2, 4, 8, 16])})
+        return case
     case["edits"].append({"op": "insert", "block": i, "off": 0,
                           "asm": "jmp .Lover\n.align %d\n.long %d\n.Lover:\nnop" % (rng.choice([2, 4, 8]), rng.randrange(1 << 16))})
     return case
